@@ -803,6 +803,8 @@ def nested_set(ctx, rule="ALG-nested-dict-set"):
                     if not any(e[0] == "clobber" for e in E.out):
                         raise
                     effs = E.out
+                # creating the missing nodes along the path (through the lookup helper) is what both helpers are for
+                effs = [e for e in effs if e[0] != "touch"]
                 clob = [e for e in effs if e[0] == "clobber"]
                 if clob:
                     bad = f"an existing intermediate dictionary is overwritten while walking the path ({clob[0][1]}): earlier saves under the same namespace are lost"
